@@ -319,8 +319,11 @@ def diss_process_dicts(rng, L, flavour):
             b = rng.randrange(a + 2, L)
             dicts.append({"name": rng.choice(lc.PAULI2), "sites": rng.choice([[a, b], [b, a]]), "strength": rng.choice([0.0, rng.uniform(0.05, 0.9)])})
     if flavour in (3, 9):     # custom one-site matrices (non-Pauli, non-diagonal L†L)
+        g_shared = rng.uniform(0.05, 0.5)
+        same = rng.random() < 0.6   # same label AND same strength, different matrices
         for _ in range(2):
-            dicts.append({"name": "custom", "sites": [rng.randrange(L)], "strength": rng.uniform(0.05, 0.5), "matrix": _custom_matrix(nprng)})
+            dicts.append({"name": "custom", "sites": [rng.randrange(L)], "strength": g_shared if same else rng.uniform(0.05, 0.5),
+                          "matrix": _custom_matrix(nprng)})
     if flavour == 4:          # zero strengths mixed in front of and behind non-zero ones
         dicts = [dict(d, strength=0.0) if k % 2 == 0 else d for k, d in enumerate(dicts)]
         dicts.append({"name": "lowering", "sites": [rng.randrange(L)], "strength": rng.uniform(0.05, 0.5)})
